@@ -81,7 +81,7 @@ _spec_hash = None
 
 
 # bump when the logic of a stage in check.py / stages_ext.py changes what a stage produces
-STAGE_VERSION = "21"
+STAGE_VERSION = "22"
 
 
 def spec_hash():
@@ -1260,6 +1260,13 @@ def collect_core(prop, tier, fnd, cov):
         import stages_ext
         stages_ext.clone_crash_into(prop, tier, fnd, cov, sys.modules[__name__])
         roguard_into(prop, stage_roguard(tier, dump), fnd, cov)
+        # clone / clone_from read their source through &self: the two-cache tour under the same guard
+        # (faithful clone, and a key type whose Clone does not preserve equality)
+        w0 = cov.get("readonly_windows", 0)
+        roguard_into(prop, stage_roguard(tier, stages_ext.clone_dump(tier, sys.modules[__name__]),
+                                         name="roguard-clone"), fnd, cov)
+        cov["readonly_windows_clone_tour"] = cov.get("readonly_windows", 0)
+        cov["readonly_windows"] = w0 + cov["readonly_windows_clone_tour"]
     if prop in ("C01", "C02", "C05", "C11", "C13"):
         # the bound / the sum of recorded sizes / the order of what remains / the atomicity of a
         # failing try_reserve must also hold around a caught panic or a refused allocation
